@@ -869,13 +869,50 @@ def run(ctx):
     for sig, what, rp in reduce_failures(fails):
         ctx.violation(sig, what, rp)
 
+    # the same image bytes under a second file name: the second picture's descr must be the second name
+    for first, second in (("first.png", "second.png"), ("a&b.png", "c<d.png")):
+        ctx.count("evaluations")
+        msg = second_name_case(first, second)
+        if msg:
+            ctx.violation("C05|readback|sink=add_picture.file-name->descr/second-name-for-same-image|any", msg,
+                          {"kind": "second-name", "first": first, "second": second})
+
     ctx.sample({"sink": "shape.name/autoshape", "m": "<a", "steps": "call, reader, save, reparse, skeleton==benign, reopen, reader"})
     for i in (3, 40, 97):
         s, m = _SINKS[(i * 7) % len(_SINKS)], _M[i]
         ctx.sample({"sink": s.name, "variant": s.variant, "m": label(m), "in_domain": bool(s.ok(m))})
 
 
+def second_name_case(first, second):
+    """add_picture(first) then add_picture(second) with IDENTICAL image bytes: each picture's descr is its own file name."""
+    from pptx import Presentation
+    tmp = fixtures.tmpdir()
+    paths = []
+    for n in (first, second):
+        p = os.path.join(tmp, n)
+        with open(p, "wb") as f:
+            f.write(_png())
+        paths.append(p)
+    try:
+        prs = Presentation(io.BytesIO(_template()))
+        slide = _blank(prs)
+        for p in paths:
+            slide.shapes.add_picture(p, 10, 10)
+        got = _descr_of_pics(slide.part.blob)
+    except Exception as e:  # noqa: BLE001
+        return "raised %s: %s" % (type(e).__name__, str(e)[:200])
+    finally:
+        for p in paths:
+            if os.path.exists(p):
+                os.unlink(p)
+    if got != [first, second]:
+        return "pictures added from files %r and %r (same bytes) have descr %r" % (first, second, got)
+    return None
+
+
 def replay(data):
+    if data.get("kind") == "second-name":
+        return second_name_case(data["first"], data["second"])
     sinks = {s.key: s for s in catalogue(True)}
     s = sinks.get((data["sink"], data["variant"]))
     if s is None:
